@@ -183,13 +183,17 @@ def sched_parts(pid: str, tier: str):
         # executors are part of "equals DAG": the same histories of executor creations, runs and failing runs in both flavours
         parts.append(Part("executor-histories-len3-both-flavours", P(run_c15, HCfg(length=3, flavours="sa", ops="exec")), {"length": "3+1", "operations": "call, executor create (whole / target), run, failing run", "flavours": "sync and async against the same reference"},
                           900, 8, ["w_final_call", "w_rerun_after_failure|w_refused_after_failure"], HIST_FUNCS))
+        from harness.history import run_c17_same_history
+
+        parts.append(Part("same-history-both-flavours-len3", P(run_c17_same_history, HCfg(length=3)), {"length": "3+1", "operations": "call (default omitted / supplied), failing call, call with too many arguments, executor create (whole / target), run, failing run, re-run, run with too many arguments, setup()",
+                          "what": "step by step the DAG and the AsyncDAG built from the same function return the same value or raise the same type of exception, and enter the same nodes"}, 900, 8, ["w_same_history", "w_raised_on_both"], HIST_FUNCS))
         from harness.threads import TCfg, run_threads
 
         parts.append(Part("concurrent-awaits-2", P(run_threads, TCfg(mode="awaits", threads=2)), {"awaits": 2, "N": 3, "shapes": 3, "nodes": "async-thread (one optionally thread)", "max_concurrency": "1..3",
                           "choices": "which suspended coroutine resumes, which futures finish", "setup": "optional setup node, optionally set up before"}, 900, 8, ["w_interleaved"], SCHED_FUNCS))
         if not q:
             parts.append(Part("concurrent-awaits-3", P(run_threads, TCfg(mode="awaits", threads=3)), {"awaits": 3, "N": 3}, 2400, 9, ["w_interleaved"], SCHED_FUNCS))
-    if pid in ("C04", "C05", "C06"):
+    if pid in ("C04", "C05", "C06", "C08"):
         # what the scheduler reads (max_concurrency, is_sequential, priorities) arrives identically through all three loaders
         from harness.graph import LCfg, run_config_loaders
 
@@ -400,6 +404,10 @@ def history_parts(pid: str, tier: str):
         from harness.history import run_c18
 
         parts.append(Part("cache-executors-N2", P(run_c18, HCfg(N=2, length=3, flavours="s")), {"N": 2, "what": "an executor started from a cache refuses a second run; a restart from another instance's cache does not change what later calls of this instance see"}, 900, 8, ["w_deps_of_restart", "w_foreign_cache"], HIST_FUNCS))
+        from harness.history import run_c09_after_failures
+
+        parts.append(Part("operations-after-failures-len2", P(run_c09_after_failures, HCfg(length=2, flavours="sa", prop="C15")), {"length": "2+2", "operations": "setup(), setup() with a failing setup node, call, failing call, call / executor run with too many arguments, executor().setup(), the same on a second DAG",
+                          "what": "a later call returns the plain evaluation whatever failed before"}, 900, 6, ["w_failed_operation", "w_operations_after_failure"], HIST_FUNCS))
         from harness.history import run_c15_setup_inputs
 
         parts.append(Part("arguments-cannot-reach-setup-nodes", P(run_c15_setup_inputs, HCfg(flavours="sa")), {"routes": "positional, keyword, flag, indexed flag, defaulted-argument flag, flag computed by a node from the argument",
